@@ -1055,6 +1055,7 @@ class WalletTransaction(Transaction):
         if key:
             self.hdwallet._balance_update(key_id=key.id)
         self.hdwallet._commit()
+        self.hdwallet._balance_update(network=self.network.name)
         return res
 
     def bumpfee(self, fee=0, extra_fee=0, broadcast=False):
